@@ -11,6 +11,8 @@ declare -A EXTRA=(
  [C04-memmerge-drops-alias]="C01"
  [C05-memmerge-drops-alias]="C04"
  [C01-merge-carryover]="C04"
+ [C10-facet-merge-skips-total-zero-again]="C09"
+ [C02-unadorned-1hit-at-or-after-lte]="C05 C08"
 )
 seeds=("$@"); [ ${#seeds[@]} -eq 0 ] && seeds=($(ls seeded | grep -v MATRIX))
 for sd in "${seeds[@]}"; do
